@@ -1,3 +1,4 @@
+import Noodles.Props.C12More
 import Noodles.Io.Loops
 import Noodles.Io.LoopsProof
 import Noodles.Bgzf.ReaderModel
